@@ -22,6 +22,14 @@ def reset_process_state() -> None:
 
     RIB._cache.clear()
     try:
+        # multi-line "group start" blocks are buffered per API process name at module level
+        from exabgp.reactor.api.command import group as _group
+
+        _group._GROUP_BUFFERS.clear()
+        _group._GROUP_BYTES.clear()
+    except Exception:
+        pass
+    try:
         from exabgp.bgp.message.update.attribute.collection import AttributeCollection
 
         for name in ('cached', 'previous'):
